@@ -1961,6 +1961,15 @@ def run_client(case) -> CaseResult:
                 st_ = c['state']
                 task = c['task']
 
+                if st_ == 'cancelled':
+                    if not task.cancelled():
+                        raise Violation('cancel', '%s: caller %d (%s) was '
+                                        'cancelled by the application, its '
+                                        'task says %r' % (where, j, c['op'],
+                                                          task),
+                                        'cancel-ignored')
+                    continue
+
                 if st_ == 'pending':
                     if task.done():
                         raise Violation(
@@ -2033,6 +2042,17 @@ def run_client(case) -> CaseResult:
                     # delivered, so stop composing
                     break
 
+                if kind == 'cancel':
+                    # the application gives up on one caller while its
+                    # request is outstanding; the server still answers it
+                    # later (it cannot know), and that reply is for nobody
+                    if c['id'] in outstanding and c['state'] == 'pending':
+                        h.call(c['task'].cancel)
+                        h.pump(chunker)
+                        c['state'] = 'cancelled'
+                        labels.add('act:cancel')
+                    continue
+
                 if kind in ('ok', 'err', 'wrong', 'okstatus', 'eof') and \
                         c['id'] not in outstanding:
                     # already answered: take the next caller still waiting
@@ -2053,6 +2073,11 @@ def run_client(case) -> CaseResult:
                     kind = 'ok'
 
                 if kind == 'okstatus' and c['rtype'] is None:
+                    kind = 'ok'
+
+                was_cancelled = c['state'] == 'cancelled'
+
+                if was_cancelled and kind in ('wrong', 'okstatus'):
                     kind = 'ok'
 
                 used_kinds.add(kind)
@@ -2098,7 +2123,8 @@ def run_client(case) -> CaseResult:
                         dead = True
 
                         for cc in calls:
-                            if cc['id'] in outstanding:
+                            if cc['id'] in outstanding and \
+                                    cc['state'] != 'cancelled':
                                 cc['state'] = 'session-error'
 
                         outstanding.clear()
@@ -2126,11 +2152,16 @@ def run_client(case) -> CaseResult:
                     dead = True
 
                     for cc in calls:
-                        if cc['id'] in outstanding:
+                        if cc['id'] in outstanding and \
+                                cc['state'] != 'cancelled':
                             cc['state'] = 'session-error'
 
                     outstanding.clear()
                     continue
+
+                if was_cancelled:
+                    c['state'] = 'cancelled'
+                    labels.add('reply-after-cancel')
 
                 order.append(j)
                 answered.append(c['id'])
@@ -2175,8 +2206,9 @@ def run_client(case) -> CaseResult:
             raise Violation('result', 'stat() on a finished SFTP session '
                             'returned %r' % (late.result(),), 'late-call')
 
-        nontrivial = 'reordered' in labels or bool(
-            used_kinds & {'wrong', 'okstatus', 'unknown', 'dup', 'noid'})
+        nontrivial = 'reordered' in labels or \
+            'reply-after-cancel' in labels or bool(
+                used_kinds & {'wrong', 'okstatus', 'unknown', 'dup', 'noid'})
         return CaseResult(sorted(labels), nontrivial)
     finally:
         pair.close()
@@ -2196,7 +2228,8 @@ def client_strategy(tier: str):
         action = st.fixed_dictionaries({
             'kind': pick(['ok', 'ok', 'ok', 'ok', 'ok', 'err',
                                      'err', 'eof', 'wrong', 'wrong',
-                                     'okstatus', 'unknown', 'dup', 'noid']),
+                                     'okstatus', 'unknown', 'dup', 'noid',
+                                     'cancel', 'cancel']),
             'who': st.integers(0, k - 1), 'code': st.integers(0, 29),
             'wtype': st.integers(0, 14), 'idoff': st.integers(0, 7)})
         # mostly a permutation of the callers, plus noise
@@ -2249,7 +2282,8 @@ FAMILIES = [
                              'reordered', 'coalesced-replies', 'act:ok',
                              'act:err', 'act:eof', 'act:wrong',
                              'act:okstatus', 'act:unknown', 'act:dup',
-                             'act:noid',
+                             'act:noid', 'act:cancel',
+                             'reply-after-cancel',
                              'session-failed', 'session-closed-by-server',
                              'limits'] +
                      ['call:' + c for c in CALL_NAMES]},
